@@ -602,8 +602,18 @@ impl<Tx: Debug + ProstMessage + Default, Rx: Debug + ProstMessage + Default> Cha
                     buffer.len(),
                     "available_data must equal the data slice length we validated against"
                 );
-                let message = Rx::decode(&buffer[delimiter_size()..message_len])
-                    .map_err(ChannelError::InvalidProtobufMessage)?;
+                let message = match Rx::decode(&buffer[delimiter_size()..message_len]) {
+                    Ok(message) => message,
+                    Err(decode_error) => {
+                        // Drop the undecodable frame before returning so the
+                        // channel can re-sync on the peer's next frame (same
+                        // policy as `MessageLengthUnderDelimiter`). Otherwise
+                        // every later `read_message()` re-reads the same frame
+                        // and returns the same error for ever.
+                        self.front_buf.consume(message_len);
+                        return Err(ChannelError::InvalidProtobufMessage(decode_error));
+                    }
+                };
                 let consumed = self.front_buf.consume(message_len);
                 // The whole frame (delimiter + payload) is consumed exactly:
                 // pair-assert that consume advanced by message_len and the data
